@@ -210,6 +210,25 @@ func (r *runner) run() int {
 		if rp == nil {
 			rp = newReplayer(r)
 		}
+		if strings.HasSuffix(n, "_race") && res.Completed == 0 {
+			// nothing could be executed symbolically (an unmodelled callee before the first assertion): the native
+			// concurrent twin still runs, with every choice at its first value, and its race / deadlock reports count
+			if out, err := rp.run(fn, map[string]any{}, ""); err == nil {
+				if marker := raceMarker(out.raw); marker != "" {
+					label := "native-twin:" + marker
+					p := rp.save(r.prop, n, label, map[string]any{}, out.raw)
+					if k := kf.match(r.prop, n, label); k != nil {
+						fmt.Printf("KNOWN-FINDING: property=%s %s (harness=%s assert=%s replay=%s)\n", r.prop, k.What, n, label, p)
+						hs.KnownFindings++
+					} else {
+						fmt.Printf("VIOLATION property=%s replay=%s\n", r.prop, p)
+						fmt.Printf("  harness=%s assert=%s (reported by the native concurrent twin of the harness; the symbolic run did not get past an unmodelled callee)\n", n, label)
+						hs.Violations++
+						exit = 1
+					}
+				}
+			}
+		}
 		// translation validation: one native replay per covered label
 		var labels []string
 		for l := range res.CoverModels {
@@ -243,6 +262,26 @@ func (r *runner) run() int {
 				// (agentB) the covering path itself ends in a registered known finding, symbolically and
 				// natively alike: both runs agree, the finding is reported by the counterexample replay below
 				ok = true
+			}
+			if !ok && strings.HasSuffix(n, "_race") {
+				// The native twin of a concurrency harness runs the same operations from several goroutines under
+				// the race detector. A report of the race detector (or of the harness's deadlock / contention
+				// watchdog) is a real execution of the real code: it is reported although the symbolic run did not
+				// predict it (the evidence says so).
+				if marker := raceMarker(out.raw); marker != "" {
+					label := "native-twin:" + marker
+					p := rp.save(r.prop, n, label, pr.CoverModel, out.raw)
+					if k := kf.match(r.prop, n, label); k != nil {
+						fmt.Printf("KNOWN-FINDING: property=%s %s (harness=%s assert=%s replay=%s)\n", r.prop, k.What, n, label, p)
+						hs.KnownFindings++
+					} else {
+						fmt.Printf("VIOLATION property=%s replay=%s\n", r.prop, p)
+						fmt.Printf("  harness=%s assert=%s (reported by the native concurrent twin of the harness, not predicted symbolically) inputs=%v\n", n, label, pr.CoverModel)
+						hs.Violations++
+						exit = 1
+					}
+					continue
+				}
 			}
 			if ok {
 				hs.TracesValidated++
@@ -352,4 +391,18 @@ func pathViolates(pr *interp.PathResult, label string) bool {
 		}
 	}
 	return false
+}
+
+func raceMarker(raw string) string {
+	switch {
+	case strings.Contains(raw, "WARNING: DATA RACE"):
+		return "data-race"
+	case strings.Contains(raw, "fatal error: concurrent map"):
+		return "concurrent-map-access"
+	case strings.Contains(raw, "ZZ-DEADLOCK"):
+		return "deadlock"
+	case strings.Contains(raw, "ZZ-ATOMICITY"):
+		return "atomicity"
+	}
+	return ""
 }
